@@ -273,10 +273,41 @@ def r5_strict(ctx, m, res) -> None:
                 (isinstance(x, ast.Expr) and isinstance(x.value, ast.Call) and isinstance(x.value.func, ast.Attribute) and u(x.value.func.value).startswith(acc)
                  and x.value.func.attr in ("append", "extend", "setdefault", "update", "insert"))]
     keys_forms = {f"{S}.keys() == {acc}.keys()", f"{acc}.keys() == {S}.keys()", f"set({S}) == set({acc})", f"set({acc}) == set({S})"}
+    # a snapshot of the first shot's register set: X = None before the loop; inside it, X = set(<this shot's registers>) exactly on the
+    # path where X is still None.  Comparing with X is comparing with the first shot; "X is not None" is "not the first shot".
+    bound_S = {u(s_.targets[0]) for s_ in olp.body if isinstance(s_, ast.Assign) and u(s_.value) == S} | {S}
+    snap_vals = {f(b_) for b_ in bound_S for f in (lambda x: f"set({x})", lambda x: f"{x}.keys()", lambda x: f"set({x}.keys())", lambda x: f"frozenset({x})")}
+    snapshots = set()
+    for s_ in cfn.body[: cfn.body.index(olp)]:
+        if isinstance(s_, ast.Assign) and isinstance(s_.targets[0], ast.Name) and isinstance(s_.value, ast.Constant) and s_.value.value is None:
+            x_ = s_.targets[0].id
+            sets_ = [n for n in ast.walk(olp) if isinstance(n, ast.Assign) and u(n.targets[0]) == x_]
+            def sets_x(q):
+                return x_ in q.env and u(q.env[x_]) in snap_vals
+
+            def still_none(q):
+                return any(re.sub(r"_u\d+", "", u(t)) == f"{x_} is not None" and not k for t, k in q.tests)
+            body_qs = summaries(olp.body)
+            if len(sets_) == 1 and u(sets_[0].value) in snap_vals and any(sets_x(q) for q in body_qs) and all(still_none(q) for q in body_qs if sets_x(q)) \
+                    and not any(x_ in q.env and not sets_x(q) and u(q.env[x_]) != x_ for q in body_qs):
+                snapshots.add(x_)
+                keys_forms |= {f"{S}.keys() == {x_}", f"{x_} == {S}.keys()", f"set({S}) == {x_}", f"{x_} == set({S})"}
+    # a record of the first length seen per register: L = {} before the loop, only ever touched as L.setdefault(reg, len(bits))
+    len_records = set()
+    for s_ in cfn.body[: cfn.body.index(olp)]:
+        if isinstance(s_, ast.Assign) and isinstance(s_.targets[0], ast.Name) and isinstance(s_.value, ast.Dict) and not s_.value.keys:
+            x_ = s_.targets[0].id
+            uses = [n for n in ast.walk(cfn) if isinstance(n, ast.Name) and n.id == x_ and isinstance(n.ctx, ast.Load)]
+            calls_ = [n for n in ast.walk(cfn) if isinstance(n, ast.Call) and isinstance(n.func, ast.Attribute) and n.func.attr == "setdefault" and u(n.func.value) == x_]
+            if uses and len(uses) == len(calls_) and x_ != acc:
+                len_records.add(x_)
+
+    def norm_t(t):
+        return re.sub(r"_u\d+", "", u(t))
     for flag, what in (("strict_names", "register sets"), ("strict_lengths", "lengths")):
         cand = [q for q in in_loop if any(u(t) == flag and k for t, k in q.tests)]
         if flag == "strict_names":
-            differ = [q for q in cand if any(u(t) in keys_forms and not k for t, k in q.tests)]
+            differ = [q for q in cand if any(norm_t(t) in keys_forms and not k for t, k in q.tests)]
         else:
             differ = [q for q in cand if any(isinstance(t, ast.Compare) and isinstance(t.ops[0], ast.Eq) and "len(" in u(t.left) and "len(" in u(t.comparators[0]) and not k for t, k in q.tests)]
         ok = bool(differ) and all(q.kind == "raise" and q.value is not None and "ValueError" in u(q.value) for q in differ)
@@ -297,8 +328,9 @@ def r5_strict(ctx, m, res) -> None:
                 # the exemption of the first shot must be positional (the loop's enumerate index): exempting "while the accumulator
                 # is empty" also exempts every shot that follows shots without registers
                 q = differ[0]
-                others = [(t, k) for t, k in q.tests if u(t) != flag and u(t) not in keys_forms and not (isinstance(t, ast.Call) and u(t.func) == "in_loop_")]
-                positional = bool(others) and all(idx is not None and {x.id for x in ast.walk(t) if isinstance(x, ast.Name)} == {idx} for t, k in others)
+                others = [(t, k) for t, k in q.tests if u(t) != flag and norm_t(t) not in keys_forms and not (isinstance(t, ast.Call) and u(t.func) == "in_loop_")]
+                positional = bool(others) and all((idx is not None and {x.id for x in ast.walk(t) if isinstance(x, ast.Name)} == {idx}) or
+                                                  (k and any(norm_t(t) == f"{x_} is not None" for x_ in snapshots)) for t, k in others)
                 by_content = [t for t, k in others if acc in u(t) or S in u(t)]
                 ctx.check(positional and not by_content, "C19.R5", "register_bitstrings: only the first shot is exempt from the strict_names test", m.path, getattr(node, "lineno", fn.lineno),
                           "the first shot defines the register set and must be the only one exempt from the comparison; the exemption here is "
@@ -312,7 +344,9 @@ def r5_strict(ctx, m, res) -> None:
             present = any(u(t) in (f"{r_} in {acc}", f"{acc}.get({r_}) is not None") and k for t, k in q.tests)
             cmp_ = any(u(t) in (f"len({acc}[{r_}][0]) == len({b_})", f"len({b_}) == len({acc}[{r_}][0])", f"len({acc}.get({r_})[0]) == len({b_})", f"len({b_}) == len({acc}.get({r_})[0])")
                        and not k for t, k in q.tests)
-            ctx.check(present and cmp_, "C19.R5", "register_bitstrings: strict_lengths compares with the first recorded length",
+            rec = any(norm_t(t) in (f"{x_}.setdefault({r_}, len({b_})) == len({b_})", f"len({b_}) == {x_}.setdefault({r_}, len({b_}))") and not k
+                      for t, k in q.tests for x_ in len_records)
+            ctx.check((present and cmp_) or rec, "C19.R5", "register_bitstrings: strict_lengths compares with the first recorded length",
                       m.path, getattr(node, "lineno", fn.lineno), "", node, found=q.describe()[:300])
     # per-shot strings in shot order: each register's string of each shot is appended to that register's list
     inner = [n for n in ast.walk(olp) if isinstance(n, ast.For) and n is not olp]
@@ -355,12 +389,32 @@ def r6_wrappers(ctx, m, res) -> None:
     ok = fb is not None and thas(ctx.cfn(f"{MOD}._flat_bitstring"), f"return ''.join((_cast_primitive_bit(c0) for c0 in _flatten({fb.args.args[0].arg})))")
     ctx.check(ok, "C19.R6", "_flat_bitstring casts every flattened primitive in order", m.path, fb.lineno if fb else 1, "", fb, found=u(real_body(fb)[-1]) if fb else "")
     fl = m.functions.get("_flatten")
-    src = u(fl) if fl else ""
-    ok = "yield from _flatten(i)" in src and "isinstance(i, list)" in src and "yield i" in src
+    ok = False
+    if fl is not None:
+        # canonical body + loop-body summaries: a list element is flattened in place, anything else is yielded, nothing is skipped
+        cf_ = ctx.cfn(f"{MOD}._flatten", subst=False)
+        lps_ = [n for n in cf_.body if isinstance(n, ast.For)]
+        if len(lps_) == 1 and len(cf_.body) == 1 and isinstance(lps_[0].target, ast.Name) and u(lps_[0].iter) == fl.args.args[0].arg:
+            v_ = lps_[0].target.id
+            qs = summaries(lps_[0].body)
+            ok = bool(qs)
+            kinds = set()
+            for q in qs:
+                il = [k for t, k in q.tests if u(t) == f"isinstance({v_}, list)"]
+                effs = q.effect_texts()
+                if il and il[0]:
+                    kinds.add("list")
+                    ok = ok and effs == [f"yield from _flatten({v_})"] and q.kind in ("fall", "continue")
+                elif il:
+                    kinds.add("leaf")
+                    ok = ok and effs == [f"yield {v_}"] and q.kind in ("fall", "continue")
+                else:
+                    ok = False
+            ok = ok and kinds == {"list", "leaf"}
     ctx.check(ok, "C19.R6", "_flatten recurses into lists in order", m.path, fl.lineno if fl else 1, "", fl)
     it = res.methods.get("_collated_shots_iter")
-    src = u(it) if it else ""
-    ctx.check("for shot in self.results" in src and "yield shot.collate_tags()" in src, "C19.R6", "QsysResult._collated_shots_iter", m.path, it.lineno if it else 1, "", it)
+    ok = it is not None and thas(ctx.cfn(f"{RQ}._collated_shots_iter"), "return (c0.collate_tags() for c0 in self.results)")
+    ctx.check(ok, "C19.R6", "QsysResult._collated_shots_iter", m.path, it.lineno if it else 1, "one collated dictionary per shot, in shot order", it)
     ad = ctx.program.cls(f"{MOD}.QsysShot").methods.get("as_dict")
     ctx.check(ad is not None and u(real_body(ad)[-1]) == "return dict(self.entries)", "C19.R6", "QsysShot.as_dict", m.path, ad.lineno if ad else 1, "", ad)
 
